@@ -374,6 +374,17 @@ func (s *Swarm) genIter(rng *vrt.Rand, r *Runner) *Op {
 	return op
 }
 
+// baseFile draws the id of a pre-existing empty data file: mostly none, else just below a varint width boundary of
+// the hint encoding so that the run's rotations cross it.
+func baseFile(rng *vrt.Rand) uint32 {
+	// only the first boundary: adopting a merge visits every file id below the marker, so a base of 16384 would make
+	// each adoption cost ~16000 file-system calls (a cost of the engine's loop, not a property matter)
+	if rng.Intn(8) == 0 {
+		return uint32(rng.Range(118, 127))
+	}
+	return 0
+}
+
 // GenCase derives the case for (property, runSeed). For adaptive arms the returned runner carries a generator
 // that fills in the client program while the run executes.
 func GenCase(prop string, seed uint64, tier string) (*Case, func(r *Runner, i int) *Op) {
@@ -398,6 +409,7 @@ func init() {
 		c.Arm = "seq"
 		small := rng.Chance(0.6)
 		c.Cfg = genConfig(rng, small)
+		c.BaseFile = baseFile(rng)
 		s := newSwarm(rng, []string{"put", "put", "del", "get", "sync", "merge", "list", "fold", "restart", "batch"}, 60)
 		s.W["put"] += 4
 		s.W["get"] += 2
@@ -430,6 +442,7 @@ func init() {
 		small := rng.Chance(0.5)
 		c.Cfg = genConfig(rng, small)
 		c.Slash = rng.Chance(0.1)
+		c.BaseFile = baseFile(rng)
 		s := newSwarm(rng, []string{"put", "del", "get", "sync", "merge", "restart", "batch"}, 40)
 		s.W["put"] += 5
 		s.W["restart"] += 3
@@ -620,6 +633,7 @@ func init() {
 	generators["C17"] = func(c *Case, rng *vrt.Rand, tier string) func(r *Runner, i int) *Op {
 		c.Arm = "seq"
 		c.Cfg = genConfig(rng, rng.Chance(0.7))
+		c.BaseFile = baseFile(rng)
 		s := newSwarm(rng, []string{"put", "del", "batch", "merge", "restart", "sync"}, 40)
 		s.W["put"] += 5
 		s.W["del"] += 2
@@ -632,6 +646,7 @@ func init() {
 	generators["C18"] = func(c *Case, rng *vrt.Rand, tier string) func(r *Runner, i int) *Op {
 		c.Arm = "seq"
 		c.Cfg = genConfig(rng, rng.Chance(0.8))
+		c.BaseFile = baseFile(rng)
 		s := newSwarm(rng, []string{"put", "del", "batch", "merge", "restart"}, 40)
 		s.Keys = genKeys(rng, rng.Range(1, 12))
 		s.W["put"] += 6
@@ -671,6 +686,7 @@ func init() {
 		c.Arm = "seq"
 		c.Cfg = genConfig(rng, rng.Chance(0.8))
 		c.Slash = rng.Chance(0.1)
+		c.BaseFile = baseFile(rng)
 		s := newSwarm(rng, []string{"put", "del", "batch", "merge", "restart", "get"}, 45)
 		s.W["put"] += 6
 		s.W["del"] += 1
@@ -721,6 +737,7 @@ func init() {
 	generators["C03"] = func(c *Case, rng *vrt.Rand, tier string) func(r *Runner, i int) *Op {
 		c.Arm = "crash"
 		c.Cfg = genConfig(rng, rng.Chance(0.6))
+		c.BaseFile = baseFile(rng)
 		crashBudget(c, rng, tier, true)
 		// "for all workloads": a share of the runs also merges (power loss inside Merge and inside the adopting
 		// Open is reached only here - C07 covers process crashes there); batches stay with C04
@@ -788,6 +805,7 @@ func init() {
 	generators["C07"] = func(c *Case, rng *vrt.Rand, tier string) func(r *Runner, i int) *Op {
 		c.Arm = "crash"
 		c.Cfg = genConfig(rng, rng.Chance(0.8))
+		c.BaseFile = baseFile(rng)
 		crashBudget(c, rng, tier, false)
 		s := newSwarm(rng, []string{"put", "del", "batch"}, 14)
 		s.W["put"] += 5
